@@ -8,7 +8,10 @@ from enum import IntEnum
 import time
 from typing import TYPE_CHECKING, Any
 
+from awesomeversion.exceptions import AwesomeVersionException
+
 from aiomysensors.exceptions import (
+    InvalidMessageError,
     MissingChildError,
     MissingNodeError,
     TooManyNodesError,
@@ -249,7 +252,10 @@ class IncomingMessageHandler(IncomingMessageHandlerBase):
         message_buffer: MessageBuffer,  # noqa: ARG003
     ) -> Message:
         """Process an internal version message."""
-        gateway.protocol_version = message.payload
+        try:
+            gateway.protocol_version = message.payload
+        except AwesomeVersionException as err:
+            raise InvalidMessageError(err, message) from err
         return message
 
     @classmethod
